@@ -176,6 +176,18 @@ def inDiff (env : Env) (rhsSel : List PV) : List PV → Outcome (List PV)
       | e => e
     | .err e => .err e | .panic s => .panic s | .outOfFuel => .outOfFuel
 
+/-- one selected left-hand value against a literal right-hand side (`InOperation`, (None, Some(r))) -/
+def inEachLit (env : Env) (r l : PV) : Outcome (List VER) :=
+  match r with
+  | .str _ _ =>
+    match l with
+    | .list _ lhsl => .ok (lhsl.map (fun e => stringIn e r))
+    | rest => .ok [stringIn rest r]
+  | rest =>
+    match containedIn env l rest with
+    | .ok v => .ok [v]
+    | .err e => .err e | .panic s => .panic s | .outOfFuel => .outOfFuel
+
 /-- `InOperation::compare` (operators.rs:323-451). -/
 def inCompare (env : Env) (lhs rhs : List QR) : Outcome EvalResult :=
   match isLiteral lhs, isLiteral rhs with
@@ -207,17 +219,7 @@ def inCompare (env : Env) (lhs rhs : List QR) : Outcome EvalResult :=
         | .err e => .err e | .panic s => .panic s | .outOfFuel => .outOfFuel
   | none, some r =>
     let pre : List VER := (unresolvedOf lhs).map VER.lhsUnresolved
-    let each (l : PV) : Outcome (List VER) :=
-      match r with
-      | .str _ _ =>
-        match l with
-        | .list _ lhsl => .ok (lhsl.map (fun e => stringIn e r))
-        | rest => .ok [stringIn rest r]
-      | rest =>
-        match containedIn env l rest with
-        | .ok v => .ok [v]
-        | .err e => .err e | .panic s => .panic s | .outOfFuel => .outOfFuel
-    match mapMOutcome each (selectedVals lhs) with
+    match mapMOutcome (inEachLit env r) (selectedVals lhs) with
     | .ok vss => .ok (.result (pre ++ vss.flatten))
     | .err e => .err e | .panic s => .panic s | .outOfFuel => .outOfFuel
   | none, none =>
@@ -232,6 +234,34 @@ def inCompare (env : Env) (lhs rhs : List QR) : Outcome EvalResult :=
       else .ok (.result (pre ++ [.cmp (.fail (.queryIn diff lhsSel rhsSel))]))
     | .err e => .err e | .panic s => .panic s | .outOfFuel => .outOfFuel
 
+/-- one `match_value` result as a one-element row -/
+def mvRow (env : Env) (l r : PV) : Outcome (List VER) :=
+  match matchValue (compareEq env) l r with
+  | .ok v => .ok [v] | .err e => .err e | .panic s => .panic s | .outOfFuel => .outOfFuel
+
+/-- a literal left-hand side against one selected right-hand value (`EqOperation`, (Some(l), None)) -/
+def eqEachRhs (env : Env) (l r : PV) : Outcome (List VER) :=
+  match l with
+  | .list _ _ => mvRow env l r
+  | single =>
+    match r with
+    | .list _ rhsl => mapMOutcome (fun e => matchValue (compareEq env) single e) rhsl
+    | rest => mvRow env single rest
+
+/-- one selected left-hand value against a literal right-hand side (`EqOperation`, (None, Some(r))) -/
+def eqEachLhs (env : Env) (r l : PV) : Outcome (List VER) :=
+  match r with
+  | .list _ rhsl =>
+    if l.isScalar && rhsl.length == 1 then
+      match rhsl with
+      | [r0] => mvRow env l r0
+      | _ => .ok []
+    else mvRow env l r
+  | single =>
+    match l with
+    | .list _ lhsList => mapMOutcome (fun e => matchValue (compareEq env) e single) lhsList
+    | _ => mvRow env l r
+
 /-- `EqOperation::compare` (operators.rs:453-598). -/
 def eqCompare (env : Env) (lhs rhs : List QR) : Outcome EvalResult :=
   let mv := matchValue (compareEq env)
@@ -243,37 +273,13 @@ def eqCompare (env : Env) (lhs rhs : List QR) : Outcome EvalResult :=
   | some l, none =>
     let pre : List VER := (unresolvedOf rhs).map (fun ur => VER.cmp (.rhsUnresolved ur l))
     let rhsSel := selectedVals rhs
-    let each (r : PV) : Outcome (List VER) :=
-      match l with
-      | .list _ _ => match mv l r with
-        | .ok v => .ok [v] | .err e => .err e | .panic s => .panic s | .outOfFuel => .outOfFuel
-      | single =>
-        match r with
-        | .list _ rhsl => mapMOutcome (fun e => mv single e) rhsl
-        | rest => match mv single rest with
-          | .ok v => .ok [v] | .err e => .err e | .panic s => .panic s | .outOfFuel => .outOfFuel
-    match mapMOutcome each rhsSel with
+    match mapMOutcome (eqEachRhs env l) rhsSel with
     | .ok vss => .ok (.result (pre ++ vss.flatten))
     | .err e => .err e | .panic s => .panic s | .outOfFuel => .outOfFuel
   | none, some r =>
     let pre : List VER := (unresolvedOf lhs).map VER.lhsUnresolved
     let lhsSel := selectedVals lhs
-    let each (l : PV) : Outcome (List VER) :=
-      match r with
-      | .list _ rhsl =>
-        if l.isScalar && rhsl.length == 1 then
-          match rhsl with
-          | [r0] => match mv l r0 with
-            | .ok v => .ok [v] | .err e => .err e | .panic s => .panic s | .outOfFuel => .outOfFuel
-          | _ => .ok []
-        else match mv l r with
-          | .ok v => .ok [v] | .err e => .err e | .panic s => .panic s | .outOfFuel => .outOfFuel
-      | single =>
-        match l with
-        | .list _ lhsList => mapMOutcome (fun e => mv e single) lhsList
-        | _ => match mv l r with
-          | .ok v => .ok [v] | .err e => .err e | .panic s => .panic s | .outOfFuel => .outOfFuel
-    match mapMOutcome each lhsSel with
+    match mapMOutcome (eqEachLhs env r) lhsSel with
     | .ok vss => .ok (.result (pre ++ vss.flatten))
     | .err e => .err e | .panic s => .panic s | .outOfFuel => .outOfFuel
   | none, none =>
